@@ -123,14 +123,16 @@ type Focus struct {
 }
 
 type M struct {
-	t     *rapid.T
-	k     *evid.Case
-	f     Focus
-	mbd   int
-	depth int // hook prune depth
-	tree  *model.Tree
-	insts []*Inst
-	ctr   uint32
+	t          *rapid.T
+	k          *evid.Case
+	f          Focus
+	mbd        int
+	depth      int // hook prune depth
+	tree       *model.Tree
+	insts      []*Inst
+	ctr        uint32
+	base       int // number of base-chain headers (real-depth regime)
+	finalCheck bool
 
 	// history statistics for the non-trivial rules
 	reorgs, siblingReorgs, maintBetweenReorgs, heavierShorter, firstHeaderReorgs int
@@ -143,6 +145,7 @@ type M struct {
 	marksOnBest, marksSide, unmarks                                              int
 	subsCount, reaccepted                                                        int
 	blocks                                                                       []*block
+	peerSyncs                                                                    int
 	proofs, corruptProofs, sideProofs, prunedProofs                              int
 	pending                                                                      []model.RawHeader // marked before being seen
 	sideBornBeforeClean                                                          map[*model.Node]bool
@@ -159,6 +162,10 @@ func newMachine(t *rapid.T, k *evid.Case, f Focus) *M {
 	m.mbd = rapid.SampledFrom([]int{0, 1, 2, 3, 5, 8, 12, 144}).Draw(t, "maxBranchDepth")
 	if m.mbd > m.depth && !f.RealDepth {
 		m.mbd = m.depth // precondition: MaxBranchDepth <= prune depth (production 144 <= 10000)
+	}
+	if f.RealDepth {
+		m.depth = 10000
+		m.mbd = rapid.SampledFrom([]int{144, 144, 144, 6, 30}).Draw(t, "realMaxBranchDepth")
 	}
 	k.Op("cfg depth=%d mbd=%d", m.depth, m.mbd)
 	store := memstore.New()
@@ -177,7 +184,49 @@ func newMachine(t *rapid.T, k *evid.Case, f Focus) *M {
 	inst.held[m.tree.Genesis] = true
 	inst.mainTip = m.tree.Genesis
 	m.insts = []*Inst{inst}
+	if f.RealDepth {
+		m.buildBase(t, inst)
+	}
 	return m
+}
+
+// buildBase submits a long straight chain (real-depth regime): lengths around the prune depth,
+// the 1000-header file boundaries and the automatic clean at heights 10000 / 20000.
+func (m *M) buildBase(t *rapid.T, inst *Inst) {
+	n := rapid.SampledFrom([]int{9990, 9998, 10003, 10040, 19995, 20050, 10990, 11005}).Draw(t, "baseLength")
+	m.k.Op("base chain %d", n)
+	cur := m.tree.Genesis
+	for i := 0; i < n; i++ {
+		raw := m.newHeader(cur.Hash, cur.Raw.Timestamp, 0x1d00ffff)
+		if err := inst.repo.ProcessHeader(vt.Ctx(), toWire(&raw)); err != nil {
+			t.Fatalf("base header %d: %s", i+1, err)
+		}
+		node := m.tree.AddChild(raw)
+		inst.acc[node], inst.held[node] = true, true
+		inst.mainTip = node
+		cur = node
+		if node.Height%10000 == 0 {
+			m.autoCleaned(inst) // ProcessHeader cleans automatically every 10000 heights
+		}
+	}
+	m.base = n
+	m.afterStepFull(true)
+}
+
+// autoCleaned applies the model effects of the automatic clean inside ProcessHeader.
+func (m *M) autoCleaned(inst *Inst) {
+	inst.mainTip = m.reported(inst)
+	tip := inst.mainTip
+	base := model.AncestorAt(tip, max(0, tip.Height-10000))
+	if base.Height > inst.floor {
+		inst.floor = base.Height
+	}
+	for n := range inst.held {
+		if !model.IsAncestorOrEqual(base, n) {
+			delete(inst.held, n)
+		}
+	}
+	m.k.Class("automatic_clean_at_10000_multiple")
 }
 
 func (m *M) newInst(name string, store *memstore.Store) *Inst {
@@ -370,8 +419,12 @@ func (m *M) submit(raw model.RawHeader, what string) {
 			if inst.excluded[n] && inst == m.insts[0] {
 				m.reaccepted++
 			}
+			extension := len(acceptedChildren(inst, parent)) == 1 // n is the only accepted child
 			if parent == inst.mainTip {
 				inst.mainTip = n
+			}
+			if m.f.RealDepth && extension && n.Height%10000 == 0 && m.reported(inst) == n {
+				m.autoCleaned(inst)
 			}
 			for a := parent; a != nil && !inst.acc[a]; a = a.Parent {
 				inst.acc[a] = true // evidently known to the instance (don't-care band)
@@ -530,6 +583,10 @@ func (m *M) checkChain(inst *Inst, full bool) {
 	tip := m.reported(inst)
 	chain := model.Chain(tip)
 	ctx := vt.Ctx()
+	if m.f.RealDepth {
+		m.checkChainReal(inst, tip, chain, full)
+		return
+	}
 	all, err := inst.repo.GetHeaders(ctx, 0, tip.Height+1)
 	if err != nil {
 		m.fail(inst, "GetHeaders(0,%d) failed: %s", tip.Height+1, err)
@@ -542,30 +599,107 @@ func (m *M) checkChain(inst *Inst, full bool) {
 			m.fail(inst, "GetHeaders(0,..)[%d] hashes to %s, but ancestor of tip %s at that height is %s", h, m.label(fromWire(hdr).Hash()), tip.Label, chain[h].Label)
 		}
 	}
-	for h, n := range chain {
+	for h := range chain {
 		if !full && h > 0 && h < tip.Height-m.effDepth()-2 && h != int(m.ctr*7)%(tip.Height+1) && h != int(m.ctr*13)%(tip.Height+1) {
 			continue
 		}
-		hash, err := inst.repo.Hash(ctx, h)
-		if err != nil {
-			m.fail(inst, "Hash(%d) failed: %s (tip %s@%d)", h, err, tip.Label, tip.Height)
-		}
-		if model.Hash(*hash) != n.Hash {
-			m.fail(inst, "Hash(%d) = %s, but ancestor of tip %s at that height is %s", h, m.label(model.Hash(*hash)), tip.Label, n.Label)
-		}
-		hdr, err := inst.repo.Header(ctx, h)
-		if err != nil {
-			m.fail(inst, "Header(%d) failed: %s", h, err)
-		}
-		if fromWire(hdr).Hash() != n.Hash {
-			m.fail(inst, "Header(%d) hashes to %s, want %s", h, m.label(fromWire(hdr).Hash()), n.Label)
-		}
-		if h > 0 && model.Hash(hdr.PrevBlock) != chain[h-1].Hash {
-			m.fail(inst, "Header(%d).PrevBlock is not the hash reported at height %d", h, h-1)
-		}
+		m.checkHeight(inst, tip, chain, h)
 	}
 	if _, err := inst.repo.Hash(ctx, tip.Height+1); err == nil {
 		m.fail(inst, "Hash(tip+1) succeeded")
+	}
+}
+
+func (m *M) checkHeight(inst *Inst, tip *model.Node, chain []*model.Node, h int) {
+	ctx := vt.Ctx()
+	n := chain[h]
+	hash, err := inst.repo.Hash(ctx, h)
+	if err != nil {
+		m.fail(inst, "Hash(%d) failed: %s (tip %s@%d)", h, err, tip.Label, tip.Height)
+	}
+	if model.Hash(*hash) != n.Hash {
+		m.fail(inst, "Hash(%d) = %s, but ancestor of tip %s at that height is %s", h, m.label(model.Hash(*hash)), tip.Label, n.Label)
+	}
+	hdr, err := inst.repo.Header(ctx, h)
+	if err != nil {
+		m.fail(inst, "Header(%d) failed: %s", h, err)
+	}
+	if fromWire(hdr).Hash() != n.Hash {
+		m.fail(inst, "Header(%d) hashes to %s, want %s", h, m.label(fromWire(hdr).Hash()), n.Label)
+	}
+	if h > 0 && model.Hash(hdr.PrevBlock) != chain[h-1].Hash {
+		m.fail(inst, "Header(%d).PrevBlock is not the hash reported at height %d", h, h-1)
+	}
+}
+
+// sampleHeights are the heights read individually in the real-depth regime: the recent window,
+// file boundaries, the prune boundary, the auto-clean heights and a few pseudo-random ones
+// (Hash(h) below the prune height re-parses a 1000-header file per call).
+func (m *M) sampleHeights(inst *Inst, tipHeight int, full bool) []int {
+	set := map[int]bool{}
+	add := func(h int) {
+		if h >= 0 && h <= tipHeight {
+			set[h] = true
+		}
+	}
+	for h := tipHeight - 160; h <= tipHeight; h++ {
+		add(h)
+	}
+	for _, b := range []int{0, 1, 999, 1000, 1001, 9999, 10000, 10001, 19999, 20000, 20001, m.base - 1, m.base, m.base + 1} {
+		add(b)
+	}
+	for d := -2; d <= 2; d++ {
+		add(inst.floor + d)
+		add(tipHeight - 10000 + d)
+		add((inst.floor/1000)*1000 + d)
+	}
+	n := 3
+	if full {
+		n = 12
+	}
+	for i := 0; i < n; i++ {
+		add(int(uint32(m.ctr*2654435761+uint32(i)*40503) % uint32(tipHeight+1)))
+	}
+	r := make([]int, 0, len(set))
+	for h := range set {
+		r = append(r, h)
+	}
+	sort.Ints(r)
+	return r
+}
+
+func (m *M) checkChainReal(inst *Inst, tip *model.Node, chain []*model.Node, full bool) {
+	ctx := vt.Ctx()
+	for _, h := range m.sampleHeights(inst, tip.Height, full) {
+		m.checkHeight(inst, tip, chain, h)
+	}
+	if _, err := inst.repo.Hash(ctx, tip.Height+1); err == nil {
+		m.fail(inst, "Hash(tip+1) succeeded")
+	}
+	ranges := [][2]int{{tip.Height - 5, 12}, {max(0, inst.floor-3), 7}}
+	if full {
+		ranges = append(ranges, [2]int{997, 6}, [2]int{max(0, inst.floor-1003), 1010}, [2]int{max(0, tip.Height-2100), 2200})
+	}
+	if m.finalCheck {
+		ranges = append(ranges, [2]int{0, tip.Height + 10})
+	}
+	for _, q := range ranges {
+		start, cnt := q[0], q[1]
+		if start < 0 || start > tip.Height {
+			continue
+		}
+		hs, err := inst.repo.GetHeaders(ctx, start, cnt)
+		if err != nil {
+			m.fail(inst, "GetHeaders(%d,%d) failed: %s", start, cnt, err)
+		}
+		if want := min(cnt, tip.Height-start+1); len(hs) != want {
+			m.fail(inst, "GetHeaders(%d,%d) returned %d headers, want %d (tip %d)", start, cnt, len(hs), want, tip.Height)
+		}
+		for i, h := range hs {
+			if fromWire(h).Hash() != chain[start+i].Hash {
+				m.fail(inst, "GetHeaders(%d,%d)[%d] is %s, best chain has %s", start, cnt, i, m.label(fromWire(h).Hash()), chain[start+i].Label)
+			}
+		}
 	}
 }
 
@@ -578,8 +712,24 @@ func (m *M) checkLookups(inst *Inst, full bool) {
 		nodes = append(nodes, n)
 	}
 	sort.Slice(nodes, func(i, j int) bool { return nodes[i].Seq < nodes[j].Seq })
+	if m.f.RealDepth {
+		// every generated header plus the base-chain headers at the sampled heights
+		sampled := map[int]bool{}
+		for _, h := range m.sampleHeights(inst, tip.Height, full) {
+			if h < tip.Height-40 {
+				sampled[h] = true
+			}
+		}
+		var sel []*model.Node
+		for _, n := range nodes {
+			if n.Seq > m.base || sampled[n.Height] {
+				sel = append(sel, n)
+			}
+		}
+		nodes = sel
+	}
 	for _, n := range nodes {
-		if !full && n.Height > 0 && n.Height < tip.Height-m.effDepth()-2 && model.IsAncestorOrEqual(n, tip) &&
+		if !m.f.RealDepth && !full && n.Height > 0 && n.Height < tip.Height-m.effDepth()-2 && model.IsAncestorOrEqual(n, tip) &&
 			n.Height != int(m.ctr*7)%(tip.Height+1) && n.Height != int(m.ctr*13)%(tip.Height+1) {
 			continue // best-chain history served from storage: sampled between maintenance steps
 		}
@@ -658,7 +808,11 @@ func (m *M) checkLookups(inst *Inst, full bool) {
 	}
 	// ranges
 	chain := model.Chain(tip)
-	for _, q := range [][2]int{{0, tip.Height + 5}, {tip.Height / 2, 3}, {tip.Height, 2}, {max(0, tip.Height-m.depth-1), 4}, {1, 1}} {
+	lookupRanges := [][2]int{{0, tip.Height + 5}, {tip.Height / 2, 3}, {tip.Height, 2}, {max(0, tip.Height-m.depth-1), 4}, {1, 1}}
+	if m.f.RealDepth {
+		lookupRanges = lookupRanges[1:]
+	}
+	for _, q := range lookupRanges {
 		start, cnt := q[0], q[1]
 		if start > tip.Height {
 			continue
